@@ -83,6 +83,37 @@ func (c *Ctx) freshPtrFn(f *ssa.Function, depth int) bool {
 	return n > 0
 }
 
+// returnsParamIdx: every return of the single-result module function g is its parameter #i (-1 if not).
+func (c *Ctx) returnsParamIdx(g *ssa.Function) int {
+	if g == nil || !inModule(g) || len(g.Blocks) == 0 || g.Signature.Results().Len() != 1 {
+		return -1
+	}
+	idx := -1
+	for _, b := range g.Blocks {
+		for _, in := range b.Instrs {
+			ret, ok := in.(*ssa.Return)
+			if !ok {
+				continue
+			}
+			p, ok := c.resolve(ret.Results[0], nil).(*ssa.Parameter)
+			if !ok {
+				return -1
+			}
+			pi := -1
+			for i, q := range g.Params {
+				if q == p {
+					pi = i
+				}
+			}
+			if pi < 0 || (idx >= 0 && idx != pi) {
+				return -1
+			}
+			idx = pi
+		}
+	}
+	return idx
+}
+
 func (c *Ctx) freshPtrVal(v ssa.Value, depth int) bool {
 	v = c.resolve(v, nil)
 	switch x := v.(type) {
@@ -90,7 +121,14 @@ func (c *Ctx) freshPtrVal(v ssa.Value, depth int) bool {
 		return true
 	case *ssa.Call:
 		if g := x.Call.StaticCallee(); g != nil {
-			return c.freshPtrFn(g, depth+1)
+			if c.freshPtrFn(g, depth+1) {
+				return true
+			}
+			// a helper that hands back one of its arguments on every path
+			if i := c.returnsParamIdx(g); i >= 0 && i < len(x.Call.Args) && depth < 6 {
+				return c.freshPtrVal(x.Call.Args[i], depth+1)
+			}
+			return false
 		}
 	case *ssa.Phi:
 		for _, e := range x.Edges {
